@@ -12,13 +12,16 @@ def plan(tier):
             pl.append((PG.shutdown_form(k, form, 2, None), 1, PT))
         pl.append((PG.shutdown_form(2, form, 1, 0.05), 1, PT))
     pl += [(PG.shutdown_form(4, "wait", 3, None, "reusable", 1), 1, PT),
+           (PG.shutdown_form(2, "wait", 5, None, "reusable", 1), 1, dict(kinds=("T",))),
+           (PG.shutdown_form(1, "exit", 4, 0.05, "reusable", 1), 1, dict(kinds=("T",))),
            (PG.shutdown_form(2, "nowait", 3, 0.05, "reusable", 1), 1, PT),
            (PG.shutdown_late_error(1), 1, PT),
            (PG.shutdown_form(2, "wait", 2, None), 1, dict(kinds=("K",), kill_when="after_shutdown")),
            (PG.shutdown_form(2, "exit", 2, 0.05), 1, dict(kinds=("K",), kill_when="after_shutdown"))]
     # submit racing with shutdown from another thread (either raises or the task runs):
     # starvation policy for the submitting thread + two preemptions
-    pl += [(PG.submit_vs_shutdown(1, True), 2, dict(kinds=("P",), starve="parent:user")),
+    pl += [(PG.submit_vs_shutdown(1, True), 2, dict(kinds=("P",), starve="parent:user",
+                                                    p_scope="parent:")),
            (PG.submit_vs_shutdown(1, False), 1, dict(kinds=("P", "T"), starve="parent:user")),
            (PG.submit_vs_shutdown(2, True), 1, PT)]
     if tier == "thorough":
